@@ -148,8 +148,9 @@ def cas_wrappers(mod):
 def atomic_sites(mod):
     wr = cas_wrappers(mod)
     sites = []
+    lsw = getattr(mod, 'load_store_wrappers', {})
     for f in mod.defined.values():
-        if f.name in wr:
+        if f.name in wr or f.name in lsw:
             continue
         for i in f.real_insts():
             if i.op == 'load' and i.ord != 'na':
